@@ -16,7 +16,8 @@ theorem levelOf_ops : ∀ k, k < nLevels → ∀ tt ∈ levelOps k, levelOf tt =
 theorem fits_mono {e : Expr} {k k' : Nat} (h : fits k e = true) (hk : k' ≤ k) : fits k' e = true := by
   cases e <;> simp only [fits, Bool.and_eq_true, decide_eq_true_eq, beq_iff_eq] at h ⊢
   case literal | ident => omega
-  case grouping | arrayLit | objectLit | propAccess => exact ⟨by omega, h.2⟩
+  case grouping | arrayLit | propAccess => exact ⟨by omega, h.2⟩
+  case objectLit => exact ⟨⟨by omega, h.1.2⟩, h.2⟩
   case call | arrayAccess => exact ⟨⟨by omega, h.1.2⟩, h.2⟩
   case unary => exact ⟨⟨by omega, h.1.2⟩, h.2⟩
   case assign => exact ⟨by omega, h.2⟩
@@ -46,7 +47,7 @@ structure FitsP (f : Nat) : Prop where
   un : ∀ ts e r, unary f ts = .ok e r → fits (nLevels + 1) e = true
   suf : ∀ e0 ts e r, fits (nLevels + 2) e0 = true → suffix f e0 ts = .ok e r → fits (nLevels + 2) e = true
   lst : ∀ ts es r, exprList f ts = .ok es r → fitsAll es = true
-  obj : ∀ ts ps r, objProps f ts = .ok ps r → fitsProps ps.1 = true
+  obj : ∀ ts ps r, objProps f ts = .ok ps r → fitsProps ps.1 = true ∧ (ps.1 = [] → ps.2 = false)
   prim : ∀ ts e r, primary f ts = .ok e r → fits (nLevels + 2) e = true
 
 theorem fitsP : ∀ f, FitsP f := by
@@ -185,7 +186,7 @@ theorem fitsP : ∀ f, FitsP f := by
           ibind h ps' r4 hp
           try dsimp only at h
           cases h
-          simp [fitsProps, fv, ih.obj r3 ps' r hp]
+          simp [fitsProps, fv, (ih.obj r3 ps' r hp).1]
         · simp only [h2, if_false] at h
           cases h
           simp [fitsProps, fv]
@@ -217,7 +218,10 @@ theorem fitsP : ∀ f, FitsP f := by
       · ibind h ps r2 hps
         ibind h t3 r4 h3
         cases h
-        simp [fits, ih.obj r0 ps r2 hps]
+        obtain ⟨ho1, ho2⟩ := ih.obj r0 ps r2 hps
+        cases hps1 : ps.1 with
+        | nil => simp [fits, fitsProps, ho2 hps1]
+        | cons a b => rw [hps1] at ho1; simp [fits, ho1]
       · cases h
 
 end Borno.Parser
